@@ -289,7 +289,7 @@ class OldTextTemplate(Template):
         for idx, mo in enumerate(self._DIRECTIVE_RE.finditer(source)):
             start, end = mo.span()
             if start > offset:
-                text = source[offset:start]
+                text = source[offset:start].replace('\\#', '#')
                 for kind, data, pos in interpolate(text, self.filepath, lineno,
                                                    lookup=self.lookup):
                     stream.append((kind, data, pos))
